@@ -1105,6 +1105,6 @@ func init() {
 				Run: ruleWirePair("WIRE-BAMHDR", "sam.(*Header).EncodeBinary#DecodeBinary", "sam", "(*Header).EncodeBinary", "sam", "(*Header).DecodeBinary", nil)},
 		},
 		Explanation: "Text round trip rests on the writer and the line parser agreeing, tag by tag, on the struct field a tag stands for, and on the parser storing the text as it stands; the identity invariants (id = index, unique names) rest on every function that changes one of refs/rgs/progs, an item's id/owner/name or a name table changing the others with it. TAG-VIEWS extracts the tag→field map of five views (String, line parser, Get, Set, Tags) per line kind and compares them; COUPLED-HEADER states, per container operation found in package sam, the companion assignments that must accompany it and checks they are there (and that no other function assigns id/owner); FRESH-LINKS covers the mapping MergeHeaders returns.",
-		NotDecided:  "value formats (dates and zones, M5 hex, UR normalisation), which optional tags win in a merge (equalRefs leniency), Reference.Set(SN) on an owned reference (not one of the property's operations; it bypasses the name table), aliasing of otherTags between a header and its clone.",
+		NotDecided:  "value formats (dates and zones, M5 hex, UR normalisation), which optional tags win in a merge (equalRefs leniency), aliasing of otherTags between a header and its clone.",
 	})
 }
